@@ -17,6 +17,7 @@ from vf.outidx import StubSet
 from vf.pipeline import run_case
 
 MOD = "c11"
+
 FOREIGN = [["ext", "decimal", "Decimal"], ["ext", "fractions", "Fraction"], ["ext", "pathlib", "PurePath"], ["ext", "xml.dom.minidom", "Document"], ["ext", "concurrent.futures", "Executor"], ["ext", "concurrent.futures", "Executor"]]  # (Executor lives in concurrent.futures._base: a private path segment)
 FOREIGN_GENERIC = [["ext", "collections", "OrderedDict"], ["ext", "collections", "Counter"]]  # rendered Name<Any, ...>: open finding
 UNMAPPED_BUILTINS = ["bytes", "object", "complex", "bytearray", "frozenset"]
@@ -90,6 +91,13 @@ def _case(draw: Any, args: dict) -> dict:
     if deep and draw(st.integers(0, 2)) == 0:
         picks = draw(st.lists(st.sampled_from(range(len(deep))), min_size=min(2, len(deep)), max_size=3, unique=True))
         two_targets = len(picks) >= 2 and draw(st.booleans())
+        if len(picks) >= 2 and draw(st.booleans()):
+            # names of which one is a prefix of the other (Order / OrderLine), re-exported side by side
+            (m1, d1), (m2, d2) = deep[picks[0]], deep[picks[1]]
+            own2 = next(c for c in classes if c["ref"] == f"{'.'.join(m2['path'])}:{d2['name']}")
+            d2["name"] = d1["name"] + "Line"
+            own2["name"] = d2["name"]
+            own2["ref"] = f"{'.'.join(m2['path'])}:{d2['name']}"
         for i in picks:
             m, d = deep[i]
             own = next(c for c in classes if c["ref"] == f"{'.'.join(m['path'])}:{d['name']}")
@@ -265,9 +273,10 @@ def judge(case: dict) -> dict:
             for name in sdsparse.named_refs(t):
                 res["evals"] += 1
                 short = name
-                if short in ref.BUILTIN_SDS_NAMES or short in scope or short in declared_here or short in imported or short in same_package:
+                if short in ref.BUILTIN_SDS_NAMES or short in scope or short in declared_here or short in imported:
                     continue
-                discs.append(Discrepancy.make("unresolved_type_name", f"{rel}: {short} in {where}", "neither a built-in mapping, declared in this file, imported, nor declared in the same Safe-DS package", tags_for(short)))
+                where_else = " (another stub file of the same Safe-DS package declares it)" if short in same_package else ""
+                discs.append(Discrepancy.make("unresolved_type_name", f"{rel}: {short} in {where}", "neither a built-in mapping, declared in this file nor imported in this file" + where_else, tags_for(short)))
 
         def walk(d: sdsparse.Decl, scope: set[str]) -> None:
             sc = scope | type_params_in_scope(d)
@@ -304,7 +313,6 @@ def run(ctx: Ctx) -> None:
         "import lines resolved; non-trivial = output with >=1 import from another package."
     )
     ctx.assumptions = [
-        "a name declared in another stub file of the same Safe-DS package counts as declared (Safe-DS resolves same-package declarations without import) - deliberate weakening, can miss but cannot false-alarm",
         "extended reference classes (generic classes from other modules, private / nested / aliased / snake_case-under-nc classes, unmapped builtins, a moved class used in its origin module) are open findings, drawn rarely in the quick tier",
     ]
     failures = engine.search(ctx, MOD, shards=ctx.n(16, 96), examples=ctx.n(12, 50))
